@@ -17,15 +17,15 @@ from vlib import log
 
 # profile plans: (profile, runs_quick, runs_thorough)
 PLANS = {
-    "C01": [("core", 5, 40), ("crashy", 5, 40), ("learners", 3, 25), ("snap", 4, 30), ("conf", 3, 30), ("single", 3, 25)],
-    "C02": [("core", 5, 40), ("crashy", 4, 40), ("prevote", 4, 30), ("conf", 3, 30), ("joint", 3, 30)],
-    "C03": [("core", 5, 40), ("crashy", 5, 40), ("snap", 4, 30), ("prevote", 4, 30), ("five", 2, 20)],
-    "C04": [("async", 5, 40), ("crashy", 5, 40), ("joint", 4, 40), ("five", 3, 25), ("single", 2, 20)],
+    "C01": [("core", 4, 40), ("crashy", 4, 40), ("learners", 2, 25), ("snap", 4, 30), ("conf", 3, 30), ("single", 2, 25), ("reelect", 4, 40), ("prevote", 2, 20)],
+    "C02": [("core", 4, 40), ("crashy", 4, 40), ("prevote", 4, 30), ("conf", 3, 30), ("joint", 3, 30), ("transfer", 4, 30)],
+    "C03": [("core", 4, 40), ("crashy", 4, 40), ("snap", 3, 30), ("prevote", 4, 30), ("five", 2, 20), ("transfer", 4, 30)],
+    "C04": [("async", 4, 40), ("crashy", 4, 40), ("joint", 5, 40), ("five", 2, 25), ("single", 2, 20), ("reelect", 5, 40)],
     "C05": [("core", 5, 40), ("flow", 5, 40), ("single", 3, 30), ("crashy", 4, 40)],
     "C06": [("async", 6, 40), ("single", 4, 40), ("crashy", 5, 40), ("prevote", 3, 30), ("shrink", 3, 30)],
     "C07": [("async", 5, 40), ("flow", 5, 40), ("snap", 4, 30), ("single", 3, 30), ("conf", 2, 20)],
-    "C08": [("read", 10, 80), ("prevote", 0, 10)],
-    "C09": [("conf", 5, 40), ("joint", 5, 40), ("confv1", 4, 40), ("shrink", 4, 30)],
+    "C08": [("read", 8, 80), ("readjoint", 8, 80)],
+    "C09": [("conf", 5, 40), ("joint", 5, 40), ("confv1", 4, 40), ("shrink", 3, 30), ("transfer", 4, 30)],
     "C10": [("live", 10, 80)],
     "C13": [("flow", 10, 80), ("snap", 5, 40)],
     "C15": [("snap", 12, 100), ("conf", 2, 20)],
@@ -33,7 +33,7 @@ PLANS = {
     "C17": [("transfer", 10, 80), ("live", 3, 30)],
     "C20": [("core", 2, 15), ("async", 2, 15), ("crashy", 3, 20), ("single", 2, 15), ("shrink", 3, 25), ("flow", 2, 15),
             ("snap", 3, 20), ("conf", 2, 15), ("joint", 2, 15), ("confv1", 2, 15), ("read", 1, 10), ("transfer", 2, 15),
-            ("prevote", 2, 15), ("live", 1, 10), ("five", 1, 10), ("learners", 1, 10)],
+            ("prevote", 2, 15), ("live", 1, 10), ("five", 1, 10), ("learners", 1, 10), ("readjoint", 2, 15), ("reelect", 1, 10)],
 }
 CHECKS = set(PLANS.keys())
 
